@@ -83,7 +83,7 @@ func zzC13Above(a, b *Validator) bool {
 	return a.StakedAmount > b.StakedAmount || (a.StakedAmount == b.StakedAmount && bytes.Compare(a.Address, b.Address) > 0)
 }
 
-//zz:harness mode=int unwind=80 maxpaths=100000 timebudget=1500 param.vals=3 param.vals@thorough=3 param.fullflags@thorough=1
+//zz:harness mode=int unwind=80 maxpaths=400000 timebudget=3600 param.vals=3 param.vals@thorough=3 param.fullflags@thorough=1 param.othercapmax@quick=3 param.othercapmax@thorough=1
 //zz:reach C13.S.done C13.S.capped C13.S.empty
 func ZZ_C13_S_getValidatorSet() {
 	n := zzParam("vals", 3)
@@ -95,8 +95,9 @@ func ZZ_C13_S_getValidatorSet() {
 		panic("params")
 	}
 	limit := uint64(zzConcrete(zzInt("cap"), 0, n))
-	// the cap that does NOT apply is arbitrary too (0..n): taking the wrong one must show
-	other := uint64(zzConcrete(zzInt("otherCap"), 0, n))
+	// the cap that does NOT apply is arbitrary too (quick: 0..n; thorough, where all flag combinations
+	// are explored: 0 or 1): taking the wrong one must show
+	other := uint64(zzConcrete(zzInt("otherCap"), 0, zzParam("othercapmax", n)))
 	p.MaxCommitteeSize, p.MaximumDelegatesPerCommittee = other, other
 	if delegate {
 		p.MaximumDelegatesPerCommittee = limit
